@@ -10,6 +10,8 @@ pub mod c03_clip;
 pub mod scene;
 pub mod c04_cover;
 pub mod c05_frag;
+pub mod c06_order;
+pub mod layers;
 pub mod rast;
 pub mod c12_tex;
 
@@ -22,6 +24,7 @@ pub fn lookup(prop: &str) -> Option<MonFn> {
         "C03" => c03_clip::run,
         "C04" => c04_cover::run,
         "C05" => c05_frag::run,
+        "C06" => c06_order::run,
         "C12" => c12_tex::run,
         _ => return None,
     })
